@@ -163,13 +163,13 @@ fn call_parameters(
         new_args.append(
             &mut args
                 .iter()
-                .map(|arg| (arg.pos, Expression { ast: arg.clone() }))
+                .map(|arg| (arg.pos, Expected::from(arg).expect))
                 .collect(),
         );
         new_args
     } else {
         args.iter()
-            .map(|arg| (arg.pos, Expression { ast: arg.clone() }))
+            .map(|arg| (arg.pos, Expected::from(arg).expect))
             .collect()
     };
 
